@@ -60,9 +60,9 @@ def check(tier, seed):
     res = C.Result('C17', tier, seed)
     res.rule = ('CFG-GNSS block lists: every ordered subset of the 8 systems up to size 3 (quick) / all 109601 ordered subsets (thorough) plus '
                 'duplicates and absent systems, random flag words, x all systems x enable/disable and both presets, decoded from payloads; the '
-                're-encoded payload is compared with an independent block-list oracle and with the model; rates 1..10 (and 0, 11); save/reset masks '
+                're-encoded payload is compared with an independent block-list oracle and with the model; block lists of 10..24 entries; rates 1..10 (and 0, 11); save/reset masks '
                 'boundary + random 32-bit; reset/start/stop; lever-arm set (types x offsets at the limits, outside) and query; set_datetime incl. '
-                'leap day / year 1 / 9999; SOS backup/clear; non-trivial = helper applied to a frame with >= 1 block or a value argument')
+                'leap day / year 1 / 9999 under a non-UTC host time zone; SOS backup/clear; non-trivial = helper applied to a frame with >= 1 block or a value argument')
     with C.WorkDir('C17') as wd:
         C.audit_sources()
         C.props_obligations(res, 'C17', wd)
@@ -78,6 +78,13 @@ def check(tier, seed):
         if tier == 'quick':
             lists += [tuple(rng.sample(systems, rng.randrange(4, 9))) for _ in range(200)]
         lists += [(0, 0), (6, 0, 6), (3, 3, 3), (1, 0, 1, 0), (7,), (9, 0), (0, 255, 6)]
+        # long messages (10..24 blocks; receivers list systems and SBAS/IMES variants several times, ids above 7 are other systems)
+        for _ in range(40 if tier == 'quick' else 1500):
+            n = rng.randrange(10, 25)
+            ids = [rng.choice([8, 9, 10, 11, 200]) for _ in range(n)]
+            for s_ in rng.sample(systems, rng.randrange(1, 8)):
+                ids[rng.randrange(n)] = s_
+            lists.append(tuple(ids))
         res.exhaustive = tier == 'thorough'
         res.notes['block_orders'] = len(lists)
         for ids in lists:
@@ -201,6 +208,12 @@ def check(tier, seed):
                 if impl != want:
                     res.violation('lever_arm(): not the first block of the requested type', {'property': 'C17', 'input': desc, 'expected': want, 'result': impl}, 'c17-lever')
         UT = mt['UbxMgaIniTimeUtc']['cls']
+        # the host's time zone must not matter: the fields are those of the datetime given (run under a non-UTC zone)
+        import os
+        import time as time_
+        old_tz = os.environ.get('TZ')
+        os.environ['TZ'] = 'VRF-9:30'
+        time_.tzset()
         for dt in [(2000, 2, 29, 0, 0, 0), (2099, 12, 31, 23, 59, 59), (1, 1, 1, 0, 0, 0), (9999, 12, 31, 23, 59, 59), (2024, 6, 15, 12, 30, 45)] + \
                 [(rng.randrange(1980, 2100), rng.randrange(1, 13), rng.randrange(1, 29), rng.randrange(24), rng.randrange(60), rng.randrange(60)) for _ in range(20 if tier == 'quick' else 1000)]:
             fr = UT() if rng.random() < 0.5 else UT.construct(bytearray(bytes(rng.getrandbits(8) for _ in range(24))))
@@ -209,6 +222,11 @@ def check(tier, seed):
             got = (fr.f.type, fr.f.version, fr.f.ref, fr.f.leapSecs, fr.f.year, fr.f.month, fr.f.day, fr.f.hour, fr.f.minute, fr.f.second, fr.f.ns, fr.f.tAccS, fr.f.tAccNs)
             if got != (0x10, 0, 0, -128) + dt + (0, 10, 0):
                 res.violation('set_datetime(): fields not as prescribed', {'property': 'C17', 'input': {'datetime': list(dt)}, 'result': impl}, 'c17-utc')
+        if old_tz is None:
+            del os.environ['TZ']
+        else:
+            os.environ['TZ'] = old_tz
+        time_.tzset()
         SO = mt['UbxUpdSosAction']['cls']
         for name, want in (('backup', 0), ('clear', 1)):
             fr = SO()
